@@ -291,6 +291,9 @@ def check(ctx):
         _r2_template(ctx, label, rel, pat)
     # ------------------------------------------------------------ R3 drivers
     _r3(ctx)
+    # each rendering is computed from the network of that call: the renderer keeps no memo between two renderings (shared with C17.R7)
+    from .c17 import stateless_renderer
+    stateless_renderer(ctx, package(ctx.tree), "R6")
 
 
 def _resolve(e, sets):
